@@ -1143,7 +1143,7 @@ def rewrite_fn(item, fc, cfg, opts, overlay):
     sigtoks = name_return(hdr, fc.ret if fc else None)
     spec = overlay_tokens(fc.spec[0], fc.spec[1], fc.spec[2]) if fc and fc.spec else []
     like = item.toks[0]
-    return sigtoks, spec, T("{", like) + body + T("}", item.toks[-1])
+    return sigtoks, spec, T("{/*vf-body*/", like) + body + T("}", item.toks[-1])
 
 
 def overlay_tokens(text, f, l0):
@@ -1221,7 +1221,7 @@ def publicise_struct(toks):
     kind = ts[body_open].s
     out = ts[:body_open + 1]
     expect_field = True
-    depth = 0
+    depth = angle = 0
     k = body_open + 1
     while k < c:
         t = ts[k]
@@ -1240,10 +1240,12 @@ def publicise_struct(toks):
                 depth += 1
             elif t.s in CLOSE:
                 depth -= 1
-            elif t.s == "," and depth == 0:
+            elif t.s == "," and depth == 0 and angle == 0:
                 expect_field = True
             elif t.s == "<":
-                pass
+                angle += 1       # generic arguments of a field type: `ArrayVec<T, { N }>` has a depth-0 comma
+            elif t.s == ">" and angle > 0 and not is_p(ts[k - 1], "-"):
+                angle -= 1
         out.append(t)
         k += 1
     out.extend(ts[c:])
